@@ -25,7 +25,9 @@ ASSUMPTIONS = ["member count per group instantiated for 0..3 members (Array/Vect
 DG = "osyris.core.datagroup"
 T_ALL = [DG + ":Datagroup." + m for m in ("__init__", "__getitem__", "__setitem__", "__delitem__", "shape", "sortby",
                                          "update", "pop", "clear")]
-CONFIGS = {"empty": [], "a": ["a"], "v": ["v"], "av": ["a", "v"], "va": ["v", "a"], "abv": ["a", "b", "v"]}
+CONFIGS = {"empty": [], "a": ["a"], "v": ["v"], "av": ["a", "v"], "va": ["v", "a"], "abv": ["a", "b", "v"],
+           # members that share data: a Vector built from the Array stored next to it, one Array under two keys
+           "a_vshared": ["a", "v@a"], "a_dup": ["a", "b@a"]}
 
 
 def mk_group(config, dims, shape_of=None):
@@ -34,6 +36,17 @@ def mk_group(config, dims, shape_of=None):
     g = osy.Datagroup()
     members = {}
     for name in config:
+        if "@" in name:
+            name, src = name.split("@")
+            base = members[src]
+            if name.startswith("v"):
+                other = A.mk_array(name + "y", dims, "1d", unit=base.unit, dt=base._array.dtype)
+                m = osy.Vector(base, other)  # the x component shares the buffer of `base`
+            else:
+                m = osy.Array(values=base._array, unit=base.unit)  # same ndarray under a second key
+            g[name] = m
+            members[name] = m
+            continue
         if name.startswith("v"):
             u = spint.sym_unit("u" + name)
             dt = snp.sym_dtype("dt" + name)
@@ -230,7 +243,7 @@ def getitem_guards(case):
 
 
 # --------------------------------------------------------------------------------------
-_SORT = [{"label": "%s,%s" % (cfg, how), "cfg": cfg, "how": how} for cfg in ("a", "av", "va", "abv")
+_SORT = [{"label": "%s,%s" % (cfg, how), "cfg": cfg, "how": how} for cfg in ("a", "av", "va", "abv", "a_vshared", "a_dup")
          for how in ("by_key", "by_indices", "none")]
 
 
